@@ -287,37 +287,87 @@ def r5(ctx):
     body = E.loop_summaries[lid]["paths"]
     X = None
     layer_adt = c.adts["network::Layer"]
+    inp_name = pat_binds(fn["params"][1])[0][0]
+    forms = set()
+
+    def x_form(p, xin):
+        """how the layer input of this path is obtained: 'last' = activated.last().unwrap(); 'some' / 'none' = the two arms of
+        `match activated.last() { Some(prev) => prev, None => input }`"""
+        a1 = e5.is_call(xin, "unwrap", 1) or e5.is_call(xin, "expect") if xin is not None else None
+        a2 = e5.is_call(a1[0], "last", 1) if a1 else None
+        if a2 and a2[0] == ("loopin", act_n, lid):
+            return "last"
+        if isinstance(xin, tuple) and len(xin) == 4 and xin[0] == "payload" and xin[2] == "Option::Some" and xin[3] == 0:
+            l2 = e5.is_call(xin[1], "last", 1)
+            if l2 and l2[0] == ("loopin", act_n, lid) and (("is", xin[1], "Option::Some"), True) in p.pc:
+                return "some"
+        if xin == ("p", inp_name):
+            for (t, pol) in p.pc:
+                if isinstance(t, tuple) and t[0] == "is" and ((t[2] == "Option::None" and pol) or (t[2] == "Option::Some" and not pol)):
+                    l2 = e5.is_call(t[1], "last", 1)
+                    if l2 and l2[0] == ("loopin", act_n, lid):
+                        return "none"
+        return None
     for v in layer_adt["variants"]:
         vp = "network::Layer::" + v["name"]
         kind = v["name"]
         mine = [p for p in body if e5.variant_of(p).get(elem) == vp]
         where = c.loc(fn, lnode)
-        if len(mine) != 1 or mine[0].exit is not None:
+        if len(mine) not in (1, 2) or any(p.exit is not None for p in mine):
             ctx.bad("R02.5", "forward-and-record:" + kind, "arm:%s:paths=%d" % (kind, len(mine)), where,
                     "expected exactly one falling-through path for %s layers, found %d (exits %s)" % (kind, len(mine), [p.exit for p in mine]))
             continue
-        p = mine[0]
         payload_ty = v["fields"][0]["ty"] if v["fields"] else "?"
-        fwd = e5.find_terms(tuple(p.eff), lambda t: t[0] == "call" and t[1] == payload_ty + "::forward")
-        F = fwd[0] if fwd else None
-        okf = F is not None and all(f == F for f in fwd) and len(F[2]) == 2 and F[2][0] == ("payload", elem, vp, 0)
-        xin = F[2][1] if okf else None
-        a1 = e5.is_call(xin, "unwrap", 1) or e5.is_call(xin, "expect") if xin is not None else None
-        a2 = e5.is_call(a1[0], "last", 1) if a1 else None
-        okx = bool(a2) and a2[0] == ("loopin", act_n, lid)
-        want_max = ("var", "Option::None", ()) if kind not in ("Maxpool", "Feedback") else ("var", "Option::Some", (e5.mk_proj(F, 2),))
-        want_fb = [] if kind != "Feedback" else [("vec", (e5.mk_proj(F, 3), e5.mk_proj(F, 4)))]
-        got = {n_: e5.pushes_to(p, n_) for n_ in roles}
-        okp = okf and got[pre_n] == [e5.mk_proj(F, 0)] and got[act_n] == [e5.mk_proj(F, 1)] and got[max_n] == [want_max] and got[fb_n] == want_fb
-        others = [e for e in p.eff if not (e[0] == "push" and e[1][0] == "local" and e[1][1] in roles)]
-        ctx.check("R02.5", "forward-and-record:" + kind, okf and okx and okp and not others,
-                  "arm:%s:%s" % (kind, short(";".join("%s<-%s" % (k_, ",".join(e5.show(t_, 3) for t_ in v_)) for k_, v_ in sorted(got.items())), 140)), where,
-                  "(pre, post[, max]) = %s::forward(layer, activated.last()); pushed to the three records" % payload_ty,
-                  "for a %s layer the walk records %s (other effects: %s); expected pre/post/max of %s::forward applied to the last activation recorded so far"
-                  % (kind, {k_: [e5.show(t_, 2) for t_ in v_] for k_, v_ in got.items()}, [e5.show(e_, 2) for e_ in others], payload_ty))
-        if okx:
-            X = xin
+        good = True
+        myforms = []
+        detail = ""
+        for p in mine:
+            fwd = e5.find_terms(tuple(p.eff), lambda t: t[0] == "call" and t[1] == payload_ty + "::forward")
+            F = fwd[0] if fwd else None
+            okf = F is not None and all(f == F for f in fwd) and len(F[2]) == 2 and F[2][0] == ("payload", elem, vp, 0)
+            xin = F[2][1] if okf else None
+            fm = x_form(p, xin)
+            myforms.append(fm)
+            want_max = ("var", "Option::None", ()) if kind not in ("Maxpool", "Feedback") else ("var", "Option::Some", (e5.mk_proj(F, 2),))
+            want_fb = [] if kind != "Feedback" else [("vec", (e5.mk_proj(F, 3), e5.mk_proj(F, 4)))]
+            got = {n_: e5.pushes_to(p, n_) for n_ in roles}
+            okp = okf and got[pre_n] == [e5.mk_proj(F, 0)] and got[act_n] == [e5.mk_proj(F, 1)] and got[max_n] == [want_max] and got[fb_n] == want_fb
+            others = [e for e in p.eff if not (e[0] == "push" and e[1][0] == "local" and e[1][1] in roles)]
+            if not (okf and fm is not None and okp and not others):
+                good = False
+                detail = ("for a %s layer the walk records %s (other effects: %s); expected pre/post/max of %s::forward applied to the last activation recorded so far"
+                          % (kind, {k_: [e5.show(t_, 2) for t_ in v_] for k_, v_ in got.items()}, [e5.show(e_, 2) for e_ in others], payload_ty))
+                short_ = "arm:%s:%s" % (kind, short(";".join("%s<-%s" % (k_, ",".join(e5.show(t_, 3) for t_ in v_)) for k_, v_ in sorted(got.items())), 140))
+            if fm is not None:
+                X = xin
+        if sorted(map(str, myforms)) not in (["last"], ["none", "some"]):
+            if good:
+                short_ = "arm:%s:paths=%d" % (kind, len(mine))
+                detail = "the %s arm obtains its input as %s" % (kind, myforms)
+            good = False
+        forms.add("A" if myforms == ["last"] else "B")
+        ctx.check("R02.5", "forward-and-record:" + kind, good, short_ if not good else "", where,
+                  "(pre, post[, max]) = %s::forward(layer, last activation); pushed to the three records" % payload_ty, detail)
     ctx.check("R02.5", "input-is-last-activated", X is not None, "layer-input", c.loc(fn, lnode), "x = activated.last().unwrap() at the start of each step")
+    # the first layer of the range reads the range input: either the record is seeded with it (and the seed removed at the end), or an empty record means "use the input"
+    act_val = ret[1][roles.index(act_n)]
+    post = [e for e in paths[0].eff if e[0] != "loop"]
+    lo = act_val
+    rm = None
+    if isinstance(lo, tuple) and lo and lo[0] == "upd":
+        rm, lo = lo, lo[1]
+    entry = e5.entry_of(lo)
+    if forms == {"A"}:
+        oks = (entry == ("vec", (("p", inp_name),)) and rm is not None and rm[2].startswith("std::vec::Vec::<T, A>::remove@") and rm[3] == (("lit", "0"),)
+               and len(post) == 1 and post[0][0] == "mut" and post[0][1].endswith("::remove"))
+    elif forms == {"B"}:
+        oks = (e5.is_call(entry, "new", 0) is not None or entry == ("vec", ()) or e5.is_call(entry, "with_capacity", 1) is not None) and rm is None and not post
+    else:
+        oks = False
+    ctx.check("R02.5", "first-layer-reads-range-input", oks, "record-seed:" + short(e5.show(entry, 2) if entry else "?", 50), c.loc(fn),
+              "activated = vec![input.clone()] .. activated.remove(0)   (or an empty record standing for the input)",
+              "the activation record starts as %s and ends as %s: the first layer of the range must read exactly the given input, and the returned record must hold one entry per layer"
+              % (e5.show(entry, 2) if entry else "?", e5.show(act_val, 2)[:120]))
     from .c12 import predict_rule
     predict_rule(ctx, "R02.5", "predict-is-last-activation")
     # flatten after activation/dropout in spatial forwards: decided on the E6 summary - the second component of the result is
